@@ -371,6 +371,7 @@ Fixpoint py_repr (v : val) : option string :=
         end)
   | VSet l =>
       match l with
+      | [] => Some "set()"
       | [x] => opt_bind (py_repr x) (fun s => Some ("{" ++ s ++ "}"))
       | _ => None   (* iteration order of a set is hash-dependent *)
       end
@@ -399,6 +400,7 @@ Fixpoint all_ascii (s : string) : bool :=
   | String c r => Nat.ltb (nat_of_ascii c) 128 && all_ascii r
   end.
 
+(** ASCII-only escape body (kept for Model/Codec.v, whose printer has ensure_ascii=False) *)
 Fixpoint json_str_body (s : string) : string :=
   match s with
   | EmptyString => EmptyString
@@ -416,8 +418,74 @@ Fixpoint json_str_body (s : string) : string :=
       else String c rest
   end.
 
+Definition hexz (z : Z) : ascii := hex_digit (Z.to_nat (z mod 16)).
+
+Definition hex4 (z : Z) : string :=
+  String (hexz (z / 4096)) (String (hexz (z / 256)) (String (hexz (z / 16)) (String (hexz z) EmptyString))).
+
+Definition u_escape (cp : Z) : string :=
+  if (cp <? 65536)%Z then "\u" ++ hex4 cp
+  else let c := (cp - 65536)%Z in
+       "\u" ++ hex4 (55296 + c / 1024) ++ "\u" ++ hex4 (56320 + c mod 1024).
+
+Definition zb (c : ascii) : Z := Z.of_nat (nat_of_ascii c).
+
+Definition is_cont (c : ascii) : bool :=
+  let n := nat_of_ascii c in Nat.leb 128 n && Nat.ltb n 192.
+
+(** body of a JSON string as [json.dumps] (ensure_ascii=True) writes it; the input is UTF-8,
+    non-ASCII code points become \uXXXX (surrogate pairs above the BMP); [None] on malformed UTF-8 *)
+Fixpoint json_str_body_u (s : string) : option string :=
+  match s with
+  | EmptyString => Some EmptyString
+  | String c r =>
+      let n := nat_of_ascii c in
+      let ascii_case :=
+          opt_bind (json_str_body_u r) (fun rest =>
+          Some (if Ascii.eqb c dquote then "\""" ++ rest
+                else if Ascii.eqb c "\"%char then "\\" ++ rest
+                else if Nat.eqb n 10 then "\n" ++ rest
+                else if Nat.eqb n 13 then "\r" ++ rest
+                else if Nat.eqb n 9 then "\t" ++ rest
+                else if Nat.eqb n 8 then "\b" ++ rest
+                else if Nat.eqb n 12 then "\f" ++ rest
+                else if Nat.ltb n 32 then "\u00" ++ hex2 n ++ rest
+                else String c rest)) in
+      if Nat.ltb n 128 then ascii_case
+      else if Nat.ltb n 192 then None
+      else if Nat.ltb n 224 then
+        match r with
+        | String c2 r2 =>
+            if is_cont c2 then
+              opt_bind (json_str_body_u r2) (fun rest =>
+              Some (u_escape ((zb c - 192) * 64 + (zb c2 - 128))%Z ++ rest))
+            else None
+        | _ => None
+        end
+      else if Nat.ltb n 240 then
+        match r with
+        | String c2 (String c3 r3) =>
+            if is_cont c2 && is_cont c3 then
+              opt_bind (json_str_body_u r3) (fun rest =>
+              Some (u_escape ((zb c - 224) * 4096 + (zb c2 - 128) * 64 + (zb c3 - 128))%Z ++ rest))
+            else None
+        | _ => None
+        end
+      else if Nat.ltb n 248 then
+        match r with
+        | String c2 (String c3 (String c4 r4)) =>
+            if is_cont c2 && is_cont c3 && is_cont c4 then
+              opt_bind (json_str_body_u r4) (fun rest =>
+              Some (u_escape ((zb c - 240) * 262144 + (zb c2 - 128) * 4096
+                              + (zb c3 - 128) * 64 + (zb c4 - 128))%Z ++ rest))
+            else None
+        | _ => None
+        end
+      else None
+  end.
+
 Definition json_str (s : string) : option string :=
-  if all_ascii s then Some (String dquote (json_str_body s ++ String dquote EmptyString)) else None.
+  opt_bind (json_str_body_u s) (fun b => Some (String dquote (b ++ String dquote EmptyString))).
 
 Fixpoint json_dumps (v : val) : option string :=
   let fix items (l : list val) : option (list string) :=
